@@ -17,8 +17,11 @@ MCWCReset == {-600000, 0, 600000}
 MCTags2 == {{}, {"t1"}}
 MCWUHist == {0, 600000, 1200000}
 MCWCHist == {0, 600000}
+MCWUReAdd == {0, 300000, 600000, 1200000}
 MCOpsWeight == {"weight"}
 MCOpsAll == {"weight", "add", "del"}
+MCOpsReAdd == {"weight", "add", "del", "readd"}
+MCOpsReAddOnly == {"readd", "weight"}
 MCSvc1 == {"A"}
 MCSvc2 == {"A", "B"}
 MCTags1 == {{}}
@@ -29,23 +32,30 @@ MCTags3 == {{}, {"t1"}, {"t1", "t2"}}
 \* the targets as added.  Scripts with the same start and the same result are examined once
 \* (View); the reset universe (weight > 0 then weight 0 / negative, ...) is generated without
 \* a view, i.e. every script is a case.
-View == <<tg0, tg, pc>>
+View == <<tg0, tg, tgL, pc>>
 
 TargetJson(t) == [i \in 1..Len(t) |-> [svc |-> t[i].svc, tags |-> t[i].tags, k |-> t[i].k]]
 CaseJson ==
     LET v == Vec(tg) IN
     [unit |-> Unit,
      adds |-> TargetJson(tg0),
-     cmds |-> [i \in 1..Len(cmds) |-> [op |-> cmds[i].op, svc |-> cmds[i].svc, sel |-> cmds[i].sel, w |-> cmds[i].w]],
+     cmds |-> [i \in 1..Len(cmds) |-> [op |-> cmds[i].op, svc |-> cmds[i].svc, sel |-> cmds[i].sel, w |-> cmds[i].w, id |-> cmds[i].id]],
      fk   |-> v,
      ew   |-> [i \in 1..Len(v) |-> [n |-> Eff(v, i).n, d |-> Eff(v, i).d]],
      lo   |-> [i \in 1..Len(v) |-> SlotLo(100, 100, Eff(v, i))],
-     hi   |-> [i \in 1..Len(v) |-> SlotHi(100, 100, Eff(v, i))]]
+     hi   |-> [i \in 1..Len(v) |-> SlotHi(100, 100, Eff(v, i))],
+     \* the "last announced weight wins" reading of the re-announcements (equal to the above
+     \* when nothing was announced again with another weight; empty when nothing is left)
+     alt  |-> LET a == Vec(tgL) IN
+              [fk |-> a,
+               ew |-> [i \in 1..Len(a) |-> [n |-> Eff(a, i).n, d |-> Eff(a, i).d]],
+               lo |-> [i \in 1..Len(a) |-> SlotLo(100, 100, Eff(a, i))],
+               hi |-> [i \in 1..Len(a) |-> SlotHi(100, 100, Eff(a, i))]]]
 
 Emit == /\ pc = "cfg" /\ tg # <<>>
         /\ PrintT(ToJson(CaseJson))
         /\ pc' = "done"
-        /\ UNCHANGED <<tg0, tg, cmds, ringvars>>
+        /\ UNCHANGED <<tg0, tg, tgL, cmds, ringvars>>
 GenNext == CfgNext \/ Emit
 GenSpec == Init /\ [][GenNext]_vars
 
